@@ -272,6 +272,39 @@ def shadow_programs():
     return outs
 
 
+def upvalue_programs():
+    """Which captured variable does a block read?  A = 1, B = 20, C = 300 are bound outside (by `let` or as the
+    parameters of an enclosing block); an outer block reads some of them, holds an inner block that reads some
+    (in any order, possibly through a third block), and reads again afterwards.  Everything read is collected in
+    a sequence, so that a read that lands in the wrong slot of a closure's environment shows as a wrong number."""
+    names = ["A", "B", "C"]
+    rd = lambda n: ("read", n)
+    inners = []
+    for n1 in names:
+        inners.append((n1, [rd(n1)]))
+        for n2 in names:
+            inners.append((n1 + n2, [rd(n1), rd(n2)]))
+            inners.append(("%s{%s}" % (n1, n2), [rd(n1), _blk(rd(n2)), APPLY]))
+            inners.append(("{%s}%s" % (n2, n1), [_blk(rd(n2)), APPLY, rd(n1)]))
+    prefixes = [(), ("A",), ("B",), ("C",), ("A", "B"), ("B", "A"), ("C", "A")]
+    suffixes = [(), ("A",), ("C",)]
+    outs = []
+    for bind in ("let", "params"):
+        for pre in prefixes:
+            for iname, inner in inners:
+                for suf in suffixes:
+                    if bind == "params" and (len(pre) + len(suf)) % 2 == 0 and len(iname) > 2:
+                        continue        # (half of the parameter-bound variants: keeps the tier under 1000 programs)
+                    body = _cat([rd(n) for n in pre], _blk(_cat(inner)), APPLY, [rd(n) for n in suf])
+                    run = ("cap", (), _cat(_blk(body), APPLY))
+                    if bind == "let":
+                        prog = _cat(("let", ("A",), _l(1)), ("let", ("B",), _l(20)), ("let", ("C",), _l(300)), run)
+                    else:
+                        prog = _cat(_l(1), _l(20), _l(300), _blk(run, ids=("A", "B", "C")), APPLY)
+                    outs.append(("%s/%s/%s/%s" % (bind, "".join(pre) or "-", iname, "".join(suf) or "-"), prog))
+    return outs
+
+
 def scope_programs():
     """Where does a binding made inside one construct end?  A binder in every kind of sub-construct,
     next to a read or a rebinding of the same name in every sibling position, with and without an outer
@@ -329,18 +362,24 @@ def work_scopes(task):
     return ev
 
 
-def work_shadow(task):
+def work_upvalues(task):
+    return work_shadow(task, upvalue_programs(), "upvalue")
+
+
+def work_shadow(task, progs=None, what="shadow"):
     lo, hi = task
     ev = Evidence()
     drv = Driver()
-    progs = shadow_programs()
+    progs = progs if progs is not None else shadow_programs()
     try:
         for name, node in progs[lo:hi]:
+            if len(ev.violations) >= 10:
+                break       # verdict settled
             try:
                 o = run_case(drv, node, ())
             except DriverCrash as e:
                 ev.violations.append({"property": PID, "query": render(node), "ast": repr(node), "reason": "driver crashed: " + e.report[-2500:],
-                                      "signature": "C03:shadow-crash:" + name})
+                                      "signature": "C03:%s-crash:%s" % (what, name)})
                 continue
             except DriverTimeout:
                 ev.inconc("watchdog")
@@ -348,13 +387,14 @@ def work_shadow(task):
             if o.status == "inconclusive":
                 ev.inconc(o.reason.split(":")[0][:50])
                 continue
-            ev.case(key=("shadow", name), nontrivial=True)
-            ev.label("shadow-template")
-            ev.label("shadow-use:" + name.split("/")[-1])
+            ev.case(key=(what, name), nontrivial=True)
+            ev.label(what + "-template")
+            if what == "shadow":
+                ev.label("shadow-use:" + name.split("/")[-1])
             if o.status == "violation":
                 ev.violations.append({"property": PID, "query": o.text, "ast": repr(node), "reason": "%s [%s]" % (o.reason, name),
                                       "engine_stderr": (o.reply or {}).get("stderr", b"").decode("latin-1")[:600],
-                                      "signature": "C03:shadow:" + name})
+                                      "signature": "C03:%s:%s" % (what, name)})
             elif name.endswith("twice") and len(ev.samples) < 12 and hash(name) % 17 == 0:
                 ev.sample({"template": name, "query": o.text, "results": len(o.stream.items) if o.stream else "compile error"})
     finally:
@@ -373,6 +413,9 @@ def main(tier, seed):
     nsh = len(shadow_programs())
     ev.merge(run_pool(work_shadow, [(lo, lo + 40) for lo in range(0, nsh, 40)]))
     ev.extra["shadow_templates"] = nsh
+    nup = len(upvalue_programs())
+    ev.merge(run_pool(work_upvalues, [(lo, lo + 40) for lo in range(0, nup, 40)]))
+    ev.extra["upvalue_templates"] = nup
     per = max(100, n // 48)
     ev.merge(run_pool(work_random, [(seed, s, min(per, n - s), depth) for s in range(0, n, per)]))
     ev.extra["random_programs"] = n
@@ -385,6 +428,7 @@ def main(tier, seed):
                           "blocks with >= 2 up-values": ev.labels.get("upvalues:2", 0) + ev.labels.get("upvalues:3", 0) > 20,
                           "shadowing": ev.labels.get("has:shadow", 0) > 50,
                           "block-in-block templates": ev.labels.get("shadow-template", 0) > 300,
+                          "up-value slot templates (block in block in block, reads before / inside / after)": ev.labels.get("upvalue-template", 0) > 500,
                           "scope templates": ev.labels.get("scope-template", 0) > 300 and ev.labels.get("scope-template:compile-error-agreed", 0) > 20})
 
 
